@@ -56,6 +56,7 @@ type Config struct {
 	Late        []int
 	Crashes     []Crash
 	RPCErrPct   int // per released read call, inside the fault window
+	WriteErrPct int // per released write call (transaction / Notary request submission), inside the fault window: the request is lost before it reaches the node and the caller sees an error
 	EvtPct      int // per event delivery, inside the fault window: delay / duplicate / drop
 	HoldPct     int // per mempool transaction and block, inside the fault window: held back
 	FaultBlocks int // the fault window: faults are injected while height < FaultBlocks
@@ -295,7 +296,7 @@ func RunSim(t *testing.T, cfg Config) (res *Result) {
 				return
 			}
 		}
-		s.logf("config n=%d random=%v blockQuanta=%d late=%v crashes=%v rpcErr=%d evt=%d hold=%d window=%d rerun=%v slow=%d/%d upgrade=%v neo=%d delay=%v", cfg.N, cfg.SchedRandom, cfg.BlockQuanta, cfg.Late, cfg.Crashes, cfg.RPCErrPct, cfg.EvtPct, cfg.HoldPct, cfg.FaultBlocks, cfg.Rerun, cfg.Slow, cfg.SlowPct, cfg.Upgrade, cfg.NEO, cfg.Delay)
+		s.logf("config n=%d random=%v blockQuanta=%d late=%v crashes=%v rpcErr=%d sendErr=%d evt=%d hold=%d window=%d rerun=%v slow=%d/%d upgrade=%v neo=%d delay=%v", cfg.N, cfg.SchedRandom, cfg.BlockQuanta, cfg.Late, cfg.Crashes, cfg.RPCErrPct, cfg.WriteErrPct, cfg.EvtPct, cfg.HoldPct, cfg.FaultBlocks, cfg.Rerun, cfg.Slow, cfg.SlowPct, cfg.Upgrade, cfg.NEO, cfg.Delay)
 		for _, l := range cfg.Late {
 			s.lateHeld[l] = true
 			s.inject("member.late")
@@ -529,6 +530,16 @@ func (s *sim) loop() {
 				s.lastFaultH = h
 				continue
 			}
+			if p.write && s.inWindow() && cfg.WriteErrPct > 0 && s.rng.IntN(100) < cfg.WriteErrPct {
+				// the submission never reaches the node: nothing enters the pool
+				s.inject("rpc.send_lost")
+				s.fired("rpc.send_lost")
+				s.m[p.member].faulted = true
+				s.logf("d=%d h=%d sendfail m%d %s", s.decisions, h, p.member, p.name)
+				s.c.gate.Fail(p)
+				s.lastFaultH = h
+				continue
+			}
 			// reads with the same name parked by one incarnation (several of its
 			// goroutines woken at the same simulated instant, e.g. pollers) are
 			// released together: which of them arrived first is the Go
@@ -566,7 +577,7 @@ func (s *sim) loop() {
 }
 
 func (s *sim) anyWindowFault() bool {
-	return s.cfg.RPCErrPct > 0 || s.cfg.EvtPct > 0 || s.cfg.HoldPct > 0 || s.cfg.Slow >= 0
+	return s.cfg.RPCErrPct > 0 || s.cfg.WriteErrPct > 0 || s.cfg.EvtPct > 0 || s.cfg.HoldPct > 0 || s.cfg.Slow >= 0
 }
 
 // deliver hands one queued block / notary-request event to one subscriber.
